@@ -214,6 +214,8 @@ impl<'a, W: 'static, R: 'static, T: 'static> RuntimeScope<'a, W, R, T> {
             scope_parent,
             template: template.clone(),
         };
+        #[cfg(xray_verif)]
+        crate::verif::on_frame(ret.template.id, ret.height.0, rt.limits.depth_limit);
         if rt
             .limits
             .depth_limit
@@ -221,6 +223,8 @@ impl<'a, W: 'static, R: 'static, T: 'static> RuntimeScope<'a, W, R, T> {
         {
             return Err(RuntimeViolation::MaximumStackDepth);
         }
+        #[cfg(xray_verif)]
+        crate::verif::on_frame_in(ret.template.id, ret.height.0);
 
         let default_offset = template.param_count - template.defaults.len();
 
@@ -414,6 +418,8 @@ impl<'a, W: 'static, R: 'static, T: 'static> RuntimeScope<'a, W, R, T> {
                 self.eval_func_with_expressions(func, &args, rt, tail_available)
             }
             XFunction::UserFunction { template, output } => {
+                #[cfg(xray_verif)]
+                crate::verif::on_ucall(template.id);
                 {
                     rt.increment_call_limit()?;
                     rt.check_timeout()?;
@@ -427,6 +433,12 @@ impl<'a, W: 'static, R: 'static, T: 'static> RuntimeScope<'a, W, R, T> {
                     match v? {
                         TailedEvalResult::TailCall(new_args) => {
                             recursion_depth += 1;
+                            #[cfg(xray_verif)]
+                            crate::verif::on_tail(
+                                template.id,
+                                recursion_depth,
+                                rt.limits.recursion_limit,
+                            );
                             if let Some(recursion_limit) = rt.limits.recursion_limit {
                                 if recursion_depth > recursion_limit {
                                     return Err(RuntimeViolation::MaximumRecursion);
@@ -462,5 +474,12 @@ impl<'a, W: 'static, R: 'static, T: 'static> RuntimeScope<'a, W, R, T> {
 
     pub(crate) fn get_cell_value(&self, idx: usize) -> &EvaluationCell<W, R, T> {
         self.cells[idx].as_ref(self.template.as_ref())
+    }
+}
+
+#[cfg(xray_verif)]
+impl<'a, W, R, T> Drop for RuntimeScope<'a, W, R, T> {
+    fn drop(&mut self) {
+        crate::verif::on_leave(self.template.id, self.height.0);
     }
 }
